@@ -4,7 +4,7 @@
   _translate_indirect_attributes, get_DIE_from_attribute), elftools/dwarf/dwarf_util.py
   (_get_base_offset, _resolve_via_offset_table), elftools/dwarf/compileunit.py and typeunit.py
   (get_top_DIE, iter_DIE_children, _iter_DIE_subtree, get_DIE_from_refaddr) and of
-  dwarfinfo.py (_parse_TU_at_offset, _parse_debug_types, get_DIE_by_sig8, get_addr).
+  dwarfinfo.py (_parse_TU_at_offset, _parse_debug_types, get_DIE_by_sig8 = `dieBySig8`, get_addr).
   Unit headers of .debug_info are `Model.Lookup.parseCUAtOffset` (C13).
 
   Caches (`_dielist`/`_diemap`, `_abbrevtable_cache`, `_terminator`, `_parent`) hold results of
@@ -410,5 +410,27 @@ def unitsLoop (P : Nat → R Lookup.CU) (size : Nat) : Nat → Nat → List Look
         | .error e => (acc.reverse, some e)
         | .ok sz => unitsLoop P size fuel (offset + sz) (cu :: acc)
     else (acc.reverse, none)
+
+/-- `DWARFInfo.get_DIE_by_sig8(sig8)`.  `units` = the type units `_parse_debug_types` finds in `.debug_types`
+    (each with the unit context its entries are parsed in, or what building that raises), `scanErr` = the
+    exception that ended that scan, if any: the map is published only when the scan completes, so EVERY lookup
+    re-raises it (after the fix of `_parse_debug_types`).  The dict is keyed by signature: the last unit with a
+    signature wins.  `fetch` is `tu._get_cached_DIE`.  Returns the unit's offset and the entry at its type_offset. -/
+def dieBySig8 (fetch : UnitCtx → Nat → R DieObs) (units : List (Lookup.CU × R UnitCtx)) (scanErr : Option Err)
+    (sig : Int) : R (Nat × DieObs) := do
+  match scanErr with
+  | some e => throw e
+  | none => pure ()
+  let hit := units.foldl (fun acc (cu, rU) =>
+    match cu.header.getInt "signature" with
+    | .ok s => if s = sig then some (cu, rU) else acc
+    | .error _ => acc) none
+  match hit with
+  | none => .error .keyError
+  | some (cu, rU) => do
+    let to ← cu.header.getNat "type_offset"
+    let U ← rU
+    let d ← fetch U (cu.cuOffset + to)
+    return (cu.cuOffset, d)
 
 end PyElf.Model.C04
